@@ -101,6 +101,9 @@ func checkC07(w *World, r *Report) {
 	r.Rule("R07.8", "backup() undoes exactly one next(): on every path a backup() call is preceded by next() with no emit/ignore/peek/accept/backup in between", 4)
 	r.guard("R07.8", func() { c07BackupDiscipline(w, r) })
 
+	r.Rule("R07.9", "goroutine confinement: the unlocked string interner and the lexer fields pos/start/width/bracketDepth are touched only by the lexer goroutine's code, lastPos only by the parser's; the item channel is the only thing the two sides share", 6)
+	r.guard("R07.9", func() { c07Confinement(w, r) })
+
 	r.Rule("R07.6", "a nil error comes with a root: the success return of Tree.Parse follows parse(), which assigns Root from stmt(), and stmt returns the node it built", 3)
 	r.guard("R07.6", func() { c07Root(w, r) })
 }
